@@ -29,6 +29,8 @@ CUSTOM_TEXT = {
     'cs': ('cs(r, A, rho, C)', 'a*Exp(-R/RHO) - C/R^6 + as.Buck(r, 10.0, Rho, 0.0)'),
     # parameter names that happen to be Python keywords / builtins (they are ordinary variables of the formula language)
     'yk': ('yk(r, A, lambda, del)', 'A*exp(-r/lambda)/r + del/r^2'),
+    # a piece-wise / series form with twenty parameters (r + 20 names), calling another form
+    'p20': ('p20(r, %s)' % ', '.join('c%d' % i for i in range(20)), 'inner2(r, c0) + ' + ' + '.join('c%d*exp(-%d*r/4)' % (i, i) for i in range(1, 20))),
     # block syntax of the formula language
     'br': ('br(r, A)', 'if (r > 1.0) { A*exp(-r); } else { A/exp(r); }'),
 }
@@ -78,6 +80,13 @@ def _c_yk(r, A, lam, de):
     return A * jexp(-r / lam) / r + de / (r * r)
 
 
+def _c_p20(r, *c):
+    out = _c_inner2(r, c[0])
+    for i in range(1, 20):
+        out = out + c[i] * jexp(-(i / 4.0) * r)
+    return out
+
+
 def _c_wb(r, A):
     return F.buck(r, A, 0.3, 1.0) + F.morse(r, 1.8, 2.0, 0.1)
 
@@ -93,7 +102,7 @@ _env = None
 def env():
     global _env
     if _env is None:
-        _env = X.Env(custom={'mix': _c_mix, 'inner': _c_inner, 'qq': _c_qq, 'sf': _c_sf, 'inner2': _c_inner2, 'ms': _c_ms, 'wb': _c_wb, 'cm': _c_cm, 'conv': _c_conv, 'br': _c_br, 'cs': _c_cs, 'yk': _c_yk, 'py_abs': _py_abs, 'py_intfirst': _py_g, 'py_np0d': _py_f, 'py_np0d0': _py_f0, 'py_plain': _py_f, 'py_deriv': _py_f, 'py_both': _py_f, 'py_bound': _py_f},
+        _env = X.Env(custom={'mix': _c_mix, 'inner': _c_inner, 'qq': _c_qq, 'sf': _c_sf, 'inner2': _c_inner2, 'ms': _c_ms, 'wb': _c_wb, 'cm': _c_cm, 'conv': _c_conv, 'br': _c_br, 'cs': _c_cs, 'yk': _c_yk, 'p20': _c_p20, 'py_abs': _py_abs, 'py_intfirst': _py_g, 'py_np0d': _py_f, 'py_np0d0': _py_f0, 'py_plain': _py_f, 'py_deriv': _py_f, 'py_both': _py_f, 'py_bound': _py_f},
                      tables={k: X.RefTable(*v) for k, v in TABLE_DATA.items()})
     return _env
 
@@ -158,6 +167,7 @@ def library():
         ('custom_assign', D(mod('sum', {"custom": "conv", "params": [2.0, 0.7]}, {"custom": "conv", "params": [3.0, 0.7]})), {'numeric'}),
         ('custom_braces', D(('>', 0.0, {"custom": "br", "params": [2.0]})), {'numeric'}),
         ('custom_case', D({"custom": "cs", "params": [800.0, 0.33, 12.0]}), {'numeric'}),
+        ('custom_20params', D({"custom": "p20", "params": [1.5] + [round(3.0 / (i + 1), 6) * (-1) ** i for i in range(1, 20)]}), {'numeric'}),
         ('custom_keyword', D({"custom": "yk", "params": [500.0, 0.6, 1.5]}), {'numeric'}),
         # modifiers whose operands are a formula (no analytic derivative) and a built-in form, both ways round; more than two operands of pow
         ('pow_custom', D(mod('pow', {"custom": "ms", "params": [650.0, 0.35]}, form('constant', 2))), {'numeric'}),
@@ -419,7 +429,7 @@ def needs(defns):
         walk(d)
     if 'mix' in cust:
         cust.add('inner')
-    if 'sf' in cust:
+    if 'sf' in cust or 'p20' in cust:
         cust.add('inner2')
     return cust, tabs
 
